@@ -460,6 +460,13 @@ type batchJudge struct {
 	rejected  int
 	single413 int  // index (in exp) of an event rejected alone with 413, or -1
 	firstOK   bool // the first attempt's body satisfied the oracle
+	// roundOver: the last request got a retryable failure; the plugin's retry may
+	// start the batch over (events accepted before are sent again: at least
+	// once) or resume after the accepted prefix. maxNext is the longest prefix
+	// accepted in any round.
+	roundOver bool
+	maxNext   int
+	retryable int
 	// resendOnly: the first attempt never reached the sink (connection
 	// refused); every payload seen was built for a retry
 	resendOnly bool
